@@ -55,3 +55,6 @@ mod index;
 mod lang;
 mod settings;
 mod table;
+
+#[cfg(feature = "verif")]
+pub mod verif;
